@@ -20,7 +20,8 @@ NoEv == [ev |-> "none"]
 \* ---- named tolerances (quantised by 1e8)
 ErrTol   == 200        \* 2e-6 absolute on a relative error (the norm shortcut loses half the digits near 0)
 ErrTol32 == 200000     \* 2e-3 when the data is held in single precision (eps = 1.2e-7, same shortcut)
-ErrTolOf(cc) == IF cc.single THEN ErrTol32 ELSE ErrTol
+ErrTolDirect == 2      \* 2e-8: tensor-ring ALS reports the norm of the residual of its least-squares solve (no shortcut: ~1e-13 on the unchanged tree)
+ErrTolOf(cc) == IF cc.single THEN ErrTol32 ELSE IF cc.alg = "tr_als" THEN ErrTolDirect ELSE ErrTol
 MonoTol  == 50         \* 5e-7: an exact block update may not increase the relative error by more than this
 CondMax  == 6          \* monotonicity is asserted only when cond(Hadamard of Grams) <= 1e6 at both iterates
 OrthTol  == 100        \* 1e-6 on max|F^T F - I|
